@@ -171,9 +171,16 @@ def run_repeating_scenario(sc, w, job):
 
 def gen_repeating_scenario(rng):
     reasons = ["ResourceExhausted", "ResourceExhausted", "KnownIssue", "Success", "SystemIssue"]
-    return {"kind": "repeating", "retries": rng.choice([0, 0, 1]),
-            "obs_script": [{"reason": rng.choice(reasons), "duration": 0.5} for _ in range(rng.randint(0, 2))],
-            "obs_tail": {"reason": rng.choice(reasons), "duration": 0.5}, "notify_at": rng.choice([0.5, 3.0])}
+    sc = {"kind": "repeating", "retries": rng.choice([0, 0, 1]),
+          "obs_script": [{"reason": rng.choice(reasons), "duration": 0.5} for _ in range(rng.randint(0, 2))],
+          "obs_tail": {"reason": rng.choice(reasons), "duration": 0.5}, "notify_at": rng.choice([0.5, 3.0])}
+    if rng.random() < 0.5:
+        # the last regular execution is interrupted (ResourceExhausted) and the submission of the RESTARTED task
+        # fails (backend down): the single allowed restart has been used up all the same
+        sc["obs_script"] = [{"reason": "ResourceExhausted", "duration": 0.5}]
+        sc["obs_tail"] = {"launch_error": rng.choice(["OSError", "JobLaunchError"])}
+        sc["retries"] = 0
+    return sc
 
 
 def gen_engine_scenario(rng):
